@@ -295,7 +295,11 @@ class PPingPong(Pattern):
         self.rpos = 0
 
     def __next__(self):
-        if self.pos == 1 and self.rpos >= self.count:
+        if len(self.values) < 2:
+            # nothing to bounce between: an input of fewer than two values is played through once
+            if self.pos >= len(self.values):
+                raise StopIteration
+        elif self.pos == 1 and self.rpos >= self.count:
             raise StopIteration
 
         rv = self.values[self.pos]
